@@ -45,6 +45,7 @@ def full_config(rng, nservers=1, nodeid=None, minimal=False, drop=(), tmrnum=Non
     cfg.add(string(0x2010, 5, b""))
     for i, sz in enumerate([1, 3, 4, 5, 7, 8, 20, 889, 890, rng.choice([1778, 2000, 4000])]):
         cfg.add(domain(0x2020, i, sz, gen.rand_bytes(rng, sz)))
+    cfg.add(domain(0x2021, 0, 8, gen.rand_bytes(rng, 8), flags=RW | P)); cfg.add(domain(0x2021, 1, 5, gen.rand_bytes(rng, 5), flags=RW | P))   # PDO-mappable objects > 4 bytes
     cfg.add(Obj(0x2030, 0, RW, "usr", "U", 4, 0, 0, 0, 7))
     cfg.add(Obj(0x2030, 1, RW, "usr", "U", 4, 0x102, 0x103, 0, 7))                 # OBJ_READ / OBJ_WRITE
     cfg.add(Obj(0x2030, 2, RW, "usr", "U", 2, 0x109, 0x109, "6090031", 7))          # range + user abort
@@ -71,8 +72,8 @@ def full_config(rng, nservers=1, nodeid=None, minimal=False, drop=(), tmrnum=Non
             cfg.add(Obj(0x1010, s, RW, "parastore", "P", g)); cfg.add(Obj(0x1011, s, RW, "pararestore", "P", g))
         cfg.nvm = (off + rng.choice([0, 0, 8]) - rng.choice([0, 0, 0, 1]) if off > 1 else off + 8, None)
     # PDOs --------------------------------------------------------------------
-    mappable_w = [(0x2000, 0, 8), (0x2000, 1, 16), (0x2000, 2, 32), (0x2001, 0, 8), (0x2001, 1, 16), (0x2001, 2, 32), (0x2002, 1, 32), (0x2000, 2, 24)]
-    mappable_r = [(0x2000, 0, 8), (0x2000, 1, 16), (0x2000, 2, 32), (0x2001, 0, 8), (0x2001, 1, 16), (0x2001, 2, 32), (0x2002, 0, 32), (0x2001, 2, 24)]
+    mappable_w = [(0x2000, 0, 8), (0x2000, 1, 16), (0x2000, 2, 32), (0x2001, 0, 8), (0x2001, 1, 16), (0x2001, 2, 32), (0x2002, 1, 32), (0x2000, 2, 24), (0x2021, 0, 64), (0x2021, 1, 40)]
+    mappable_r = [(0x2000, 0, 8), (0x2000, 1, 16), (0x2000, 2, 32), (0x2001, 0, 8), (0x2001, 1, 16), (0x2001, 2, 32), (0x2002, 0, 32), (0x2001, 2, 24), (0x2021, 0, 64), (0x2021, 1, 40)]
     dummies = [(2, 0, 8), (3, 0, 16), (4, 0, 32), (5, 0, 8), (6, 0, 16), (7, 0, 32)]
     if "14xx" not in drop:
         chans = [c for c in range(4) if rng.random() < 0.7] or [rng.randrange(4)]
